@@ -1,32 +1,85 @@
-/* Body stubs for the libc functions used by the extracted readers (assumed, not proved; DESIGN.md 6).
-   Each stub checks the caller's obligations (buffer sizes) as assertions at the real call site and
-   returns an arbitrary result allowed by the C standard. */
+/* Stubs for the libc functions used by the extracted readers (assumed, not proved; DESIGN.md 6).
+   They check the caller's obligations (buffer sizes) as assertions at the real call sites and return an
+   arbitrary result allowed by the C standard ("any file content").
+   strlen is a contract stub (use with --replace-call-with-contract): it REQUIRES that a NUL byte is known
+   at or after the string start (ghost g_nul_ptr, set by fgets or by a ghost statement next to a store of 0),
+   and ensures that the first NUL is not after that witness. */
 #ifndef VP_STDIO_STUBS_H
 #define VP_STDIO_STUBS_H
 #include "mp_shim.h"
 
 typedef struct vp_FILE { int dummy; } FILE;
 #define VP_OBJ_REMAINING(p) (__CPROVER_OBJECT_SIZE(p) - __CPROVER_POINTER_OFFSET(p))
+#define getc vp_getc
+#define ungetc vp_ungetc
+#define rewind vp_rewind
+#define strtod vp_strtod
+#define strtol vp_strtol
+#define strlen vp_strlen
+#define strncmp vp_strncmp
 
+/* ghost: address of a byte known to be NUL */
+char *g_nul_ptr;
+#define VP_NUL_AT_OR_AFTER(s) (__CPROVER_same_object((s), g_nul_ptr) && \
+   __CPROVER_POINTER_OFFSET(s) <= __CPROVER_POINTER_OFFSET(g_nul_ptr) && \
+   __CPROVER_POINTER_OFFSET(g_nul_ptr) < __CPROVER_OBJECT_SIZE(g_nul_ptr) && *g_nul_ptr == 0)
+#define VP_WITNESS_LEN(s) ((size_t)(__CPROVER_POINTER_OFFSET(g_nul_ptr) - __CPROVER_POINTER_OFFSET(s)))
 
-char *fgets(char *s, int n, FILE *f) {
-  __CPROVER_assert(n >= 1, "fgets: size argument is at least 1");
-  __CPROVER_assert(__CPROVER_w_ok(s, (size_t)n), "fgets: the buffer holds the size passed");
-  if (nondet_bool()) return (char *)0;           /* EOF or error */
-  size_t len = nondet_size_t();
-  __CPROVER_assume(len < (size_t)n && (n < 2 || len >= 1));
-  __CPROVER_havoc_slice(s, (size_t)n);
-  s[len] = 0;
-  return s;
-}
-size_t fread(void *p, size_t size, size_t nmemb, FILE *f) {
-  __CPROVER_assert(size == 0 || nmemb <= SIZE_MAX / size, "fread: size * nmemb does not overflow");
-  __CPROVER_assert(size * nmemb == 0 || __CPROVER_w_ok(p, size * nmemb), "fread: the buffer holds size * nmemb bytes");
-  if (size * nmemb) __CPROVER_havoc_slice(p, size * nmemb);
-  size_t r = nondet_size_t();
-  __CPROVER_assume(r <= nmemb);
-  return r;
-}
+/* fgets / fread / memcpy / strcpy are GNU statement-expression macros, i.e. the stub is inlined at every call site:
+   symbolic execution then knows the exact target object of each site.  (A shared stub function merges the targets
+   of all sites, and a byte-precise havoc with a symbolic length over a symbolic-size candidate does not terminate.)
+   For the one buffer whose size comes from the file (std::vector<char> xp of a suffix, ghost g_big) the whole
+   object is havocked and the highest offset written is recorded; fixed-size buffers are havocked byte-precisely. */
+char *g_big; size_t g_big_size; size_t g_big_hi;
+#define VP_WRITE_BYTES(p, n) do { void *vp_wp = (p); size_t vp_wn = (n); if (vp_wn) { \
+    if (__CPROVER_same_object(vp_wp, g_big)) { \
+      if (__CPROVER_POINTER_OFFSET(vp_wp) + vp_wn > g_big_hi) g_big_hi = __CPROVER_POINTER_OFFSET(vp_wp) + vp_wn; \
+      __CPROVER_havoc_object(g_big); \
+    } else __CPROVER_havoc_slice(vp_wp, vp_wn); } } while (0)
+/* call sites whose target is the file-sized buffer (selected by the spec, checked here): no byte-precise branch,
+   because after a loop contract has havocked the cursor its possible targets are all objects */
+#define VP_WRITE_BYTES_BIG(p, n) do { void *vp_wp = (p); size_t vp_wn = (n); \
+    __CPROVER_assert(__CPROVER_same_object(vp_wp, g_big), "write goes into the suffix buffer"); \
+    if (vp_wn) { \
+      if (__CPROVER_POINTER_OFFSET(vp_wp) + vp_wn > g_big_hi) g_big_hi = __CPROVER_POINTER_OFFSET(vp_wp) + vp_wn; \
+      __CPROVER_havoc_object(g_big); } } while (0)
+
+#define VP_FGETS_W(W, s, n, f) ({ char *vp_s = (s); int vp_n = (n); char *vp_r = (char *)0; (void)(f); \
+  __CPROVER_assert(vp_n >= 1, "fgets: size argument is at least 1"); \
+  __CPROVER_assert(__CPROVER_w_ok(vp_s, (size_t)vp_n), "fgets: the buffer holds the size passed"); \
+  if (nondet_bool()) {                             /* else: EOF or error */ \
+    size_t vp_len = nondet_size_t(); \
+    __CPROVER_assume(vp_len < (size_t)vp_n && (vp_n < 2 || vp_len >= 1)); \
+    W(vp_s, (size_t)vp_n); \
+    vp_s[vp_len] = 0; g_nul_ptr = vp_s + vp_len; vp_r = vp_s; } \
+  vp_r; })
+#define fgets(s, n, f) VP_FGETS_W(VP_WRITE_BYTES, s, n, f)
+#define vp_fgets_big(s, n, f) VP_FGETS_W(VP_WRITE_BYTES_BIG, s, n, f)
+
+#define VP_FREAD_W(W, p, size, nmemb, f) ({ void *vp_p = (void *)(p); size_t vp_sz = (size), vp_nm = (nmemb); (void)(f); \
+  __CPROVER_assert(vp_sz == 0 || vp_nm <= SIZE_MAX / vp_sz, "fread: size * nmemb does not overflow"); \
+  __CPROVER_assert(vp_sz * vp_nm == 0 || __CPROVER_w_ok(vp_p, vp_sz * vp_nm), "fread: the buffer holds size * nmemb bytes"); \
+  W(vp_p, vp_sz * vp_nm); \
+  size_t vp_rr = nondet_size_t(); __CPROVER_assume(vp_rr <= vp_nm); vp_rr; })
+#define fread(p, size, nmemb, f) VP_FREAD_W(VP_WRITE_BYTES, p, size, nmemb, f)
+#define vp_fread_big(p, size, nmemb, f) VP_FREAD_W(VP_WRITE_BYTES_BIG, p, size, nmemb, f)
+
+#define VP_MEMCPY_W(W, d, s, n) ({ void *vp_d = (void *)(d); const void *vp_src = (const void *)(s); size_t vp_cn = (n); \
+  __CPROVER_assert(vp_cn == 0 || __CPROVER_r_ok(vp_src, vp_cn), "memcpy: source readable"); \
+  __CPROVER_assert(vp_cn == 0 || __CPROVER_w_ok(vp_d, vp_cn), "memcpy: destination writable"); \
+  W(vp_d, vp_cn); vp_d; })
+#define memcpy(d, s, n) VP_MEMCPY_W(VP_WRITE_BYTES, d, s, n)
+#define vp_memcpy_big(d, s, n) VP_MEMCPY_W(VP_WRITE_BYTES_BIG, d, s, n)
+
+/* strcpy: the first NUL of the source is not after the witness g_nul_ptr */
+#define VP_STRCPY_W(W, d, s) ({ char *vp_d = (d); const char *vp_src = (s); \
+  __CPROVER_assert(VP_NUL_AT_OR_AFTER(vp_src), "strcpy: a NUL is known at or after the source start"); \
+  size_t vp_k = nondet_size_t(); __CPROVER_assume(vp_k <= VP_WITNESS_LEN(vp_src)); \
+  __CPROVER_assert(__CPROVER_w_ok(vp_d, vp_k + 1), "strcpy: destination holds the string and its terminator"); \
+  W(vp_d, vp_k + 1); vp_d; })
+#define strcpy(d, s) VP_STRCPY_W(VP_WRITE_BYTES, d, s)
+#define vp_strcpy_big(d, s) VP_STRCPY_W(VP_WRITE_BYTES_BIG, d, s)
+
 int getc(FILE *f) { int c = nondet_int(); __CPROVER_assume(-1 <= c && c <= 255); return c; }
 int ungetc(int c, FILE *f) { return c; }
 void rewind(FILE *f) {}
@@ -47,45 +100,17 @@ long strtol(const char *s, char **endp, int base) {
   if (endp) *endp = (char *)s + k;
   return nondet_long();
 }
-/* strlen / strcpy: scan to the FIRST NUL.  That s is NUL-terminated inside its object is the caller's
-   obligation and is assumed here through an angelic witness g (s[g] == 0); the scan loops carry loop contracts. */
-size_t strlen(const char *s) {
-  size_t g = nondet_size_t();
-  __CPROVER_assume(g < VP_OBJ_REMAINING(s) && s[g] == 0);
-  size_t k = 0;
-  while (s[k])
-    __CPROVER_assigns(k) __CPROVER_loop_invariant(k <= g) __CPROVER_decreases(g - k)
-  { ++k; }
-  return k;
-}
-char *strcpy(char *d, const char *s) {
-  size_t g = nondet_size_t();
-  __CPROVER_assume(g < VP_OBJ_REMAINING(s) && s[g] == 0);
-  size_t k = 0;
-  while (s[k])
-    __CPROVER_assigns(k) __CPROVER_loop_invariant(k <= g) __CPROVER_decreases(g - k)
-  { ++k; }
-  __CPROVER_assert(__CPROVER_w_ok(d, k + 1), "strcpy: destination holds the string and its terminator");
-  __CPROVER_havoc_slice(d, k + 1);
-  d[k] = 0;
-  return d;
-}
-void *memcpy(void *d, const void *s, size_t n) {
-  __CPROVER_assert(n == 0 || __CPROVER_r_ok(s, n), "memcpy: source readable");
-  __CPROVER_assert(n == 0 || __CPROVER_w_ok(d, n), "memcpy: destination writable");
-  if (n) __CPROVER_havoc_slice(d, n);
-  return d;
-}
+size_t strlen(const char *s)
+__CPROVER_requires(VP_NUL_AT_OR_AFTER(s))
+__CPROVER_ensures(__CPROVER_return_value <= VP_WITNESS_LEN(s) && s[__CPROVER_return_value] == 0)
+__CPROVER_assigns();
+
+/* strncmp with n <= 8 (every call site in the verified code passes a constant 6, 7 or 8): loop-free, exact */
+#define VP_CMP_STEP(i) if ((i) < n) { unsigned char x = (unsigned char)a[i], y = (unsigned char)b[i]; \
+                                      if (x != y) return x < y ? -1 : 1; if (!x) return 0; }
 int strncmp(const char *a, const char *b, size_t n) {
-  size_t i = 0;
-  while (i < n)
-    __CPROVER_assigns(i) __CPROVER_loop_invariant(i <= n) __CPROVER_decreases(n - i)
-  {
-    unsigned char x = (unsigned char)a[i], y = (unsigned char)b[i];
-    if (x != y) return x < y ? -1 : 1;
-    if (!x) return 0;
-    ++i;
-  }
+  __CPROVER_assert(n <= 8, "strncmp stub: n <= 8");
+  VP_CMP_STEP(0) VP_CMP_STEP(1) VP_CMP_STEP(2) VP_CMP_STEP(3) VP_CMP_STEP(4) VP_CMP_STEP(5) VP_CMP_STEP(6) VP_CMP_STEP(7)
   return 0;
 }
 #endif
